@@ -588,9 +588,11 @@ package tchannel
 
 // Every pool in the library hands out frames shaped by NewFrame with the full
 // protocol payload capacity.
+// (a frame handed out by the pool is referenced by nobody else: for framing
+// purposes it is as good as freshly allocated)
 //@ iface FramePool.Get() (f *Frame)
 //@   modifies own(f)
-//@   ensures FrameFull(f)
+//@   ensures fresh(f) && fresh(f.buffer) && FrameFull(f)
 //@ iface FramePool.Release(f *Frame)
 //@   label released-at-most-once-and-only-by-the-owner
 //@   consumes own(f)
@@ -600,18 +602,32 @@ package tchannel
 //@   modifies nothing
 //@   ensures m != nil
 
+// (per-type facts for the three handshake messages are proved on the
+// implementations: (*initMessage).read/write, (*errorMessage).write, the
+// messageType/ID methods)
 //@ iface message.ID() (id uint32)
 //@   modifies nothing
+//@   ensures istype(self, *initReq) ==> id == self.(*initReq).id
+//@   ensures istype(self, *initRes) ==> id == self.(*initRes).id
+//@   ensures istype(self, *errorMessage) ==> id == self.(*errorMessage).id
 //@ iface message.messageType() (t messageType)
 //@   modifies nothing
+//@   ensures istype(self, *initReq) ==> t == messageTypeInitReq
+//@   ensures istype(self, *initRes) ==> t == messageTypeInitRes
+//@   ensures istype(self, *errorMessage) ==> t == messageTypeError
 //@ iface message.write(w *typed.WriteBuffer) (err error)
 //@   modifies w.remaining, w.err, elems(w.remaining)
 //@   ensures typed.Suffix(w.remaining, old(w.remaining))
 //@   ensures old(w.err) == nil && err == nil ==> w.err == nil
+//@   ensures istype(self, *initReq) && err == nil && old(w.err) == nil ==> len(old(w.remaining)) >= 2 && be16(old(w.remaining), 0) == self.(*initReq).Version
+//@   ensures istype(self, *initRes) && err == nil && old(w.err) == nil ==> len(old(w.remaining)) >= 2 && be16(old(w.remaining), 0) == self.(*initRes).Version
+//@   ensures istype(self, *errorMessage) && err == nil && old(w.err) == nil ==> len(old(w.remaining)) >= 2 && u8at(old(w.remaining), 0) == self.(*errorMessage).errCode
 //@ iface message.read(r *typed.ReadBuffer) (err error)
 //@   modifies r.remaining, r.err, self.*
 //@   ensures typed.Suffix(r.remaining, old(r.remaining))
 //@   ensures old(r.err) == nil && err == nil ==> r.err == nil
+//@   ensures istype(self, *initReq) && err == nil && old(r.err) == nil ==> len(old(r.remaining)) >= 2 && self.(*initReq).Version == be16(old(r.remaining), 0)
+//@   ensures istype(self, *initRes) && err == nil && old(r.err) == nil ==> len(old(r.remaining)) >= 2 && self.(*initRes).Version == be16(old(r.remaining), 0)
 
 //@ func (mex *messageExchange) checkError() (err error)
 //@   requires mex.ctx != nil
